@@ -430,6 +430,65 @@ def nx_layout (ctx, cname, m, b):
     bad("layout check could not read the object (%s)" % type(e).__name__, repr(e))
 
 
+_table = []
+
+def controller_table ():
+  """The type->unpacker table a controller connection decodes with, with the
+  Nicira vendor unpacker installed the way nicira.launch() does it."""
+  if not _table:
+    import pox.core
+    if pox.core.core is None:
+      from pvm import env
+      env.make_core()
+    import pox.openflow.of_01 as of_01
+    import pox.openflow.nicira as nicira
+    if of_01.unpackers[4] is not nicira._unpack_nx_vendor:
+      nicira._init_unpacker()
+    _table.append(of_01.unpackers)
+  return _table[0]
+
+
+def table_decode (ctx, cname, m, b, rng):
+  """Decodes b the way Connection.read does: through the table, as the last
+  message in the buffer and with other bytes around it."""
+  try:
+    table = controller_table()
+  except Exception as e:
+    ctx.fire(cname, "controller unpacker table unavailable (%s)" % type(e).__name__, repr(e))
+    return
+  if len(b) < 8: return
+  try: unpacker = table[b[1]]
+  except (KeyError, IndexError): return
+  if unpacker is None: return
+  pre = rbytes(rng, rng.choice([0, 0, 8, 3]))
+  for raw in (b, pre + b, pre + b + rbytes(rng, rng.choice([1, 2, 3, 8, 16]))):
+    o0 = 0 if raw is b else len(pre)
+    ctx.rep.count("decoded_through_the_controller_table")
+    if len(raw) == o0 + len(b):
+      ctx.rep.count("decoded_as_last_message_in_buffer")
+    try:
+      off, o2 = unpacker(raw, o0)
+    except Exception as e:
+      tb = traceback.extract_tb(e.__traceback__)
+      ctx.fire(cname, "table decode raises %s" % type(e).__name__,
+               "%r at %s:%s (%d bytes follow)" %
+               (e, tb[-1].name, tb[-1].lineno, len(raw) - o0 - len(b)))
+      return
+    if off != o0 + len(b):
+      ctx.fire(cname, "table decode consumed wrong number of bytes",
+               "consumed %d, message is %d" % (off - o0, len(b)))
+    try:
+      if type(o2) is type(m):
+        if not (o2 == m) or (o2 != m):
+          ctx.fire(cname, "table-decoded object not equal to original", b.hex()[:200])
+      b2 = o2.pack()
+      if b2 != b:
+        ctx.fire(cname, "table-decoded object re-encodes differently",
+                 "%s vs %s" % (b2.hex()[:200], b.hex()[:200]))
+    except Exception as e:
+      ctx.fire(cname, "table-decoded object unusable (%s)" % type(e).__name__, repr(e))
+
+
 def roundtrip_message (ctx, m, rng, cname=None):
   cname = cname or type(m).__name__
   try:
@@ -498,6 +557,7 @@ def roundtrip_message (ctx, m, rng, cname=None):
     except Exception as e:
       ctx.fire(cname, "re-pack raises %s" % type(e).__name__, repr(e))
   ctx.rep.count("roundtrips")
+  table_decode(ctx, cname, m, b, rng)
   return b
 
 
